@@ -28,6 +28,18 @@ class RegexStackOverflow(Exception):
     pass
 
 
+# ECMAScript character class escapes (not the host's Unicode predicates)
+DIGIT_CHARS = frozenset("0123456789")
+WORD_CHARS = frozenset(
+    "abcdefghijklmnopqrstuvwxyzABCDEFGHIJKLMNOPQRSTUVWXYZ0123456789_"
+)
+# WhiteSpace and LineTerminator
+SPACE_CHARS = frozenset(
+    "\t\n\v\f\r \u00a0\u1680\u2000\u2001\u2002\u2003\u2004\u2005\u2006"
+    "\u2007\u2008\u2009\u200a\u2028\u2029\u202f\u205f\u3000\ufeff"
+)
+
+
 class MatchResult:
     """Result of a successful regex match."""
 
@@ -231,7 +243,7 @@ class RegexVM:
                 pc += 1
 
             elif opcode == Op.DIGIT:
-                if sp >= len(string) or not string[sp].isdigit():
+                if sp >= len(string) or string[sp] not in DIGIT_CHARS:
                     if not stack:
                         return None
                     pc, sp, captures, registers = self._backtrack(stack)
@@ -240,7 +252,7 @@ class RegexVM:
                 pc += 1
 
             elif opcode == Op.NOT_DIGIT:
-                if sp >= len(string) or string[sp].isdigit():
+                if sp >= len(string) or string[sp] in DIGIT_CHARS:
                     if not stack:
                         return None
                     pc, sp, captures, registers = self._backtrack(stack)
@@ -249,7 +261,7 @@ class RegexVM:
                 pc += 1
 
             elif opcode == Op.WORD:
-                if sp >= len(string) or not (string[sp].isalnum() or string[sp] == "_"):
+                if sp >= len(string) or string[sp] not in WORD_CHARS:
                     if not stack:
                         return None
                     pc, sp, captures, registers = self._backtrack(stack)
@@ -258,7 +270,7 @@ class RegexVM:
                 pc += 1
 
             elif opcode == Op.NOT_WORD:
-                if sp >= len(string) or (string[sp].isalnum() or string[sp] == "_"):
+                if sp >= len(string) or string[sp] in WORD_CHARS:
                     if not stack:
                         return None
                     pc, sp, captures, registers = self._backtrack(stack)
@@ -267,7 +279,7 @@ class RegexVM:
                 pc += 1
 
             elif opcode == Op.SPACE:
-                if sp >= len(string) or not string[sp].isspace():
+                if sp >= len(string) or string[sp] not in SPACE_CHARS:
                     if not stack:
                         return None
                     pc, sp, captures, registers = self._backtrack(stack)
@@ -276,7 +288,7 @@ class RegexVM:
                 pc += 1
 
             elif opcode == Op.NOT_SPACE:
-                if sp >= len(string) or string[sp].isspace():
+                if sp >= len(string) or string[sp] in SPACE_CHARS:
                     if not stack:
                         return None
                     pc, sp, captures, registers = self._backtrack(stack)
@@ -585,7 +597,7 @@ class RegexVM:
         """Check if position is at a word boundary."""
 
         def is_word_char(ch: str) -> bool:
-            return ch.isalnum() or ch == "_"
+            return ch in WORD_CHARS
 
         before = pos > 0 and is_word_char(string[pos - 1])
         after = pos < len(string) and is_word_char(string[pos])
